@@ -39,6 +39,12 @@ CLAIMED = {
  "C12": ("property-based testing: reference keep(set,msg) vs filter_as_streams and StreamContext::from+match_filters",
          "Generated-input exploration over filter sets of all kinds and message streams; selection, order, unchanged messages and counts for the stream filter; decision equality for the set matcher incl. several event filters.",
          "container for match_filters is built through StreamContext::from (drops disabled filters) as the real callers do", "4/C12"),
+ "C17": ("property-based testing with single-fault injection: generated transfers/interleavings/faults vs. expected completion table, byte-exact save, directory snapshot oracle",
+         "Generated-input and generated-fault exploration of the file transfer plugin through its public constructor, process_msg, state tree and save command; faults are enumerated by kind (drop, duplicate, swap, resize, missing announcement, missing end marker) at generated positions; file system effects are checked by before/after snapshots of a sandbox.",
+         "trusted: glob crate for the expected auto-save selection; a transfer with missing announcement may or may not complete (if it does, content must be identical)", "4/C17"),
+ "C20": ("property-based testing: model-based op sequences (SeekableChain vs Cursor); generated zip archives with hostile names vs. extraction oracle with directory snapshots",
+         "Generated-history exploration of the volume chain against std::io::Cursor over the concatenation; generated archives (own stored writer incl. duplicate/hostile names, deflate via zip crate, multi volume on disk) through list/extract_to_dir/extract_archives with glob patterns.",
+         "out-of-range seeks are outside the equivalence oracle; glob crate trusted; zip crate's reader is part of the system under test", "4/C20"),
 }
 PENDING = {}
 def main():
